@@ -75,7 +75,8 @@ void AppendDomain(util::Serializer &dump, const std::string domain)
 }
 
 /// 从缓冲中提取domain，与AppendDomain()相反
-std::string FetchDomain(util::Deserializer &parser)
+/// jump_left: how many more compression pointers may be followed (a pointer loop must not recurse for ever)
+std::string FetchDomain(util::Deserializer &parser, int jump_left = 10)
 {
     std::ostringstream oss;
     bool first = true;
@@ -94,13 +95,17 @@ std::string FetchDomain(util::Deserializer &parser)
             uint8_t offset_low = 0;
             parser >> offset_low;
             uint16_t offset = (len & 0x3f) << 8 | offset_low;
+            if (jump_left <= 0)     //! too many jumps: a malformed (looping) packet
+                break;
             util::Deserializer sub_parser(parser);
-            sub_parser.set_pos(offset);
-            oss << FetchDomain(sub_parser);
+            if (!sub_parser.set_pos(offset))    //! pointer outside the packet
+                break;
+            oss << FetchDomain(sub_parser, jump_left - 1);
             break;
         } else {
             char str[len + 1];
-            parser.fetch(str, len);
+            if (!parser.fetch(str, len))    //! truncated label: nothing was read into str
+                break;
             str[len] = '\0';
             oss << str;
         }
@@ -214,7 +219,7 @@ void DnsRequest::onUdpRecv(const void *data_ptr, size_t data_size, const SockAdd
     RECORD_SCOPE();
     util::Deserializer parser(data_ptr, data_size);
 
-    uint16_t req_id, flags;
+    uint16_t req_id = 0, flags = 0;     //! stay defined when the packet is too short
     parser >> req_id >> flags;
 
     Request *req = findRequest(req_id);
@@ -230,7 +235,7 @@ void DnsRequest::onUdpRecv(const void *data_ptr, size_t data_size, const SockAdd
     Result result;
 
     if (rcode == 0) {   //! 正常
-        uint16_t qd_count, an_count, ns_count, ar_count;
+        uint16_t qd_count = 0, an_count = 0, ns_count = 0, ar_count = 0;
         parser >> qd_count >> an_count >> ns_count >> ar_count;
 
 #if 0
@@ -241,21 +246,25 @@ void DnsRequest::onUdpRecv(const void *data_ptr, size_t data_size, const SockAdd
         //! 解析Question字段
         for (uint16_t i = 0; i < qd_count; ++i) {
             FetchDomain(parser);
-            uint16_t dns_type, dns_class;
+            uint16_t dns_type = 0, dns_class = 0;
             parser >> dns_type >> dns_class;
         }
 
         for (uint16_t i = 0; i < an_count; ++i) {
             FetchDomain(parser);
-            uint16_t an_type, an_class, an_len;
-            uint32_t an_ttl;
+            if (!parser.checkSize(10))  //! truncated answer: type(2) class(2) ttl(4) len(2)
+                break;
+            uint16_t an_type = 0, an_class = 0, an_len = 0;
+            uint32_t an_ttl = 0;
             parser >> an_type >> an_class >> an_ttl >> an_len;
 
 #if 0
             LogTrace("type:%d, class:%d, ttl:%d, len:%d", an_type, an_class, an_ttl, an_len);
 #endif
             if (an_type == DNS_TYPE_A) {
-                uint32_t ip_value;
+                if (!parser.checkSize(4))   //! truncated address: report nothing that is not in the packet
+                    break;
+                uint32_t ip_value = 0;
                 auto old_endian = parser.setEndian(util::Endian::kLittle);
                 parser >> ip_value;
                 parser.setEndian(old_endian);
